@@ -9,10 +9,11 @@ vet)
   ID=$1; X=$2; SRC=/tmp/seedout/$ID/$X; WT=/tmp/wt/vet_$ID$X
   [ -f $SRC/patch.diff ] || { echo "no patch in $SRC"; exit 2; }
   git -C /repo worktree add --detach $WT HEAD -q || exit 2
-  r0=$(/tmp/wt/wtrun $WT /venv/bin/python $SRC/demo.py >/tmp/vet_$ID$X.orig.log 2>&1; echo $?)
+  mkdir -p /tmp/wt
+  r0=$(/verif/wtrun.sh $WT $SRC/demo.py >/tmp/vet_$ID$X.orig.log 2>&1; echo $?)
   git -C $WT apply $SRC/patch.diff || { echo "patch does not apply"; git -C /repo worktree remove --force $WT; exit 2; }
-  r1=$(/tmp/wt/wtrun $WT /venv/bin/python $SRC/demo.py >/tmp/vet_$ID$X.mut.log 2>&1; echo $?)
-  t=$(/tmp/wt/wtrun $WT /venv/bin/python -m pytest -q -p no:cacheprovider --timeout=900 tests 2>&1 | tail -1)
+  r1=$(/verif/wtrun.sh $WT $SRC/demo.py >/tmp/vet_$ID$X.mut.log 2>&1; echo $?)
+  t=$(cd $WT && /tmp/agents/treepy $WT -m pytest -q -p no:cacheprovider --timeout=900 tests 2>&1 | tail -1)
   git -C /repo worktree remove --force $WT
   echo "$ID/$X demo_orig=$r0 demo_mut=$r1 tests: $t"
   case "$t" in *"162 passed"*) ok=1;; *) ok=0;; esac
